@@ -110,7 +110,7 @@ type optSpec struct {
 }
 
 func (r *Rng) ecsOpt() optSpec {
-	switch r.Intn(8) {
+	switch r.Intn(10) {
 	case 0: // v4 /32
 		return optSpec{code: 8, data: append([]byte{0, 1, 32, 0}, r.Bytes(4)...)}
 	case 1: // v4 /24 padded to 8 bytes
@@ -128,6 +128,12 @@ func (r *Rng) ecsOpt() optSpec {
 		return optSpec{code: 8, data: r.Bytes(r.Intn(8))}
 	case 6: // unknown family
 		return optSpec{code: 8, data: append([]byte{0, byte(r.Intn(5)), 32, 0}, r.Bytes(4+r.Intn(20))...)}
+	case 8: // OPTION-LENGTH around 256: only the low length byte is read by nutterECSOption (C13 finding)
+		n := r.Pick([]int{247, 248, 249, 252, 260, 300, 504})
+		return optSpec{code: 8, data: append([]byte{0, 1, 32, 0}, r.Bytes(4+n)...)}
+	case 9: // v6 /128 with boundary lengths
+		n := r.Pick([]int{15, 16, 17, 251, 252, 253})
+		return optSpec{code: 8, data: append([]byte{0, 2, 128, 0}, r.Bytes(n)...)}
 	default: // v4/32 with trailing bytes
 		return optSpec{code: 8, data: append([]byte{0, 1, 32, 0}, r.Bytes(4+r.Intn(30))...)}
 	}
